@@ -13,6 +13,7 @@ from tie import scalar_tables
 from tie.framework import g_bool, g_list, g_pair, g_str, g_Z, run_impl_parallel
 
 PROP = "C01"
+JUDGE = os.environ.get("VERIF_C01_JUDGE", "judge")     # "judge_fixed" once fixes/C01-skip-default-trims-dict-leaf.patch is applied
 IMPORTS = ("From JV Require Import Lib.Base Lib.Regex Model.TyVal Model.Scalar Model.C01Conf Model.C01Guard "
            "Gen.C01Tables Corr.C01Judge.")
 RULE = ("one case = (parser, accepted configuration, variant): parser = 1-5 leaves, some under nested groups (dotted keys, "
@@ -398,7 +399,8 @@ def sweep_cases(rng, tier):
     cases.append(make_case(rng, [("s", "str", None, "a\x85b")], {"kind": "dump", "format": "yaml", "skip_none": False}))
     cases.append({"decl": [["s", {"ty": "str", "def": "a"}]], "argv": ["--s=NO"],
                   "variant": {"kind": "print_config", "format": "yaml", "flags": "comments"}})
-    cases.append(make_case(rng, [("k", ["union", ["float", "int"]], -143624, ABSENT)], {"kind": "dump", "format": "yaml", "skip_none": False}))
+    cases.append({"decl": [["k", {"ty": ["union", ["float", "int"]], "def": -143624}]], "argv": [],
+                  "variant": {"kind": "dump", "format": "yaml", "skip_none": False}})
     cases.append(make_case(rng, [("e", ["opt", ["enum", "Sw"]], None, {"$e": ["Sw", "null"]})],
                            {"kind": "dump", "format": "yaml", "skip_none": False}))
     return cases
